@@ -263,15 +263,18 @@ impl Check for C01 {
                 if Tri::from_bool(got) != expected {
                     // types that went through the semantic engine (Exclude spelling) inherit its known findings
                     // (C07: containers over empty types judged empty, `any` closed to the engine's universe)
-                    let fallback = if case.used.contains_key("exclude") { "c01_membership:program_uses_exclude" } else { "c01_membership" };
-                    let sig = explain(&case.env, d, v, Mode::Open, got).unwrap_or(fallback);
+                    let sigs: Vec<String> = match explain(&case.env, d, v, Mode::Open, got) {
+                        Some(q) => vec![q.to_string()],
+                        None if case.used.contains_key("exclude") => crate::csem::engine_family_sigs("c01_membership", &case.env, d, Some(v)),
+                        None => vec!["c01_membership".to_string()],
+                    };
                     let what = format!(
                         "validator for {} {} a value the type {}",
                         name,
                         if got { "accepts" } else { "rejects" },
                         if got { "does not contain" } else { "contains" }
                     );
-                    out.mismatch(ctx, sig, what, json!({"program": case.program, "parser": name, "type": d, "value": v, "validate": got, "reference": format!("{:?}", expected)}));
+                    out.mismatch_any(ctx, &sigs, what, json!({"program": case.program, "parser": name, "type": d, "value": v, "validate": got, "reference": format!("{:?}", expected)}));
                 }
             }
             if acc > 0 {
